@@ -30,14 +30,21 @@ MANIFEST = {
     "text": "Lean theorems over an executable model of to_long/from_long, b2a/a2b_base58, b2a/a2b_hashed_base58 and of bech32m.py "
             "(polymod, checksum, bech32_encode/decode, convertbits, segwit encode/decode): exact inversion both ways for every byte "
             "string / every string over the alphabet, rejection iff a character is outside the alphabet, Base58Check accepted iff the "
-            "4 checksum bytes match, GF(2)-linearity of the Bech32 polymod and checksum validity for both constants, convertbits round "
+            "4 checksum bytes match, GF(2)-linearity of the Bech32 polymod and checksum validity for both constants, detection of every "
+            "1..4 substituted symbols within the last 89 symbols of an accepted word under the same checksum constant (minimum distance "
+            "5 of the code up to the BIP173 length, for the generator words the source has now), convertbits round "
             "trip, segwit encode/decode inverse for every allowed (hrp, version, program), rejection of mixed case, wrong constant, bad "
             "length and padding; alphabets and constants regenerated from the source on every run; model tied to the code by "
             "differential correspondence on every public entry point.",
-    "note": "Detection of every <=4-character error is proved by reduction (linearity) to a finite statement about the syndromes of "
-            "error words; weights 1-2 of it are checked in the Lean kernel, weights 3-4 are sampled, not proved. The clause holds only "
-            "within one checksum constant: 3-4 substitutions can turn a valid Bech32 string into a valid Bech32m string (inherent to "
-            "BIP350; witness in corpus, listed as a known finding). hashlib.sha256 is a function symbol in the theorems.",
+    "note": "Detection of every <=4-symbol error (C11_errdetect_le4, hypothesis-free) is a theorem for all error words spanning up "
+            "to 89 symbols: reduction by linearity to syndromes; weights 1-2 by kernel evaluation over the 89x31 single-error syndromes; "
+            "weights 3-4 by position-shift invariance (a zero round is injective) and GF(32)-scalar invariance, which leave 118 668 "
+            "lookups (single k 1 xor single l d)>>5 against 2 729 keys, all evaluated in the Lean kernel (decide +kernel, four parallel "
+            "chunk files, ~10 s and ~1.4 GB each) through bit-set filters proved to contain every key; the syndrome table is regenerated "
+            "from the real bech32_polymod by translate/gen_bech32syn.py and re-derived from the model in the kernel, so it is not trusted. "
+            "The clause holds only within one checksum constant: 3-4 substitutions can turn a valid Bech32 string into a valid Bech32m "
+            "string (inherent to BIP350; witness in corpus, listed as a known finding, C11_errdetect_any4_refuted). The harness still "
+            "samples <=4-error corruptions on the implementation (bech32err ops). hashlib.sha256 is a function symbol in the theorems.",
     "technique": "Lean 4 proof (induction over an executable model, decide over generated tables) + differential correspondence model vs implementation",
 }
 RULE = ("ops b58enc/b58dec/b58cenc/b58cdec/b58cvalid/c11_pb58/bech32enc/bech32dec/bech32raw/bech32err/c11_pbech32/convertbits/bech32chk/pstr_seq; "
@@ -635,6 +642,21 @@ def gen(ctx, emit):
                 emit("bech32enc %s %d %s" % (s2h(_hrp(rng, hl)), ver, hx(rb(n))))
     for hl in (1, 2, 82, 83, 84):
         emit("bech32enc %s 1 %s" % (s2h(_hrp(rng, hl)), hx(b"\x07\x09")))
+    # valid strings without any cased character (hrp of digits/punctuation, data and checksum all digits): found by search
+    # with the reference encoder; `s.lower() != s and s.upper() != s` and islower()/isupper() differ exactly there
+    nocase_pool = [chr(c) for c in range(33, 127) if not chr(c).isalpha()]
+    digits5 = [i for i, ch in enumerate(CHARSET) if ch.isdigit()]
+    found = 0
+    for _ in range(ctx.n(20000, 400000)):
+        hrp = "".join(rng.choice(nocase_pool) for _ in range(rng.choice((1, 2, 3))))
+        data = [rng.choice(digits5) for _ in range(rng.choice((0, 0, 1, 2)))]
+        spec = rng.choice((1, 2))
+        t = _ref_bech32_encode(hrp, data, spec)
+        if not any(ch.isalpha() for ch in t):
+            emit("bech32raw " + s2h(t), "bech32-no-cased-character")
+            found += 1
+            if found >= ctx.n(6, 60):
+                break
     # hrp with upper case / out of range / non-ASCII characters, empty hrp
     for hrp in ("BC", "Bc", "b c", "b\x7fc", "bé", "€", "\U0001f600", "", " ", "\x20bc"):
         emit("bech32enc %s 0 %s" % (s2h(hrp), hx(b"\x01" * 20)))
